@@ -966,9 +966,19 @@ pub fn arb_c12() -> BoxedStrategy<StreamCase> {
                             pdu,
                             split,
                         });
+                    // frames carrying a foreign transaction id (MBAP): a late reply to an earlier
+                    // request, a duplicate; they are not outcomes and must not touch the count
+                    let stale = (arb_delay(t), prop::sample::select(vec![65535u16, 65534, 1, 2]), any::<u64>()).prop_map(|(delay_ms, off, seed)| PeerAct::Frame {
+                        delay_ms,
+                        tx: TxSel::Offset(off),
+                        pdu: PduSel::Genuine(seed),
+                        split: None,
+                    });
                     prop_oneof![
                         2 => Just(Vec::new()),
-                        6 => one.prop_map(|a| vec![a]),
+                        6 => one.clone().prop_map(|a| vec![a]),
+                        1 => stale.clone().prop_map(|a| vec![a]),
+                        1 => (stale, one).prop_map(|(a, b)| vec![a, b]),
                     ]
                     .boxed()
                 })
